@@ -85,6 +85,41 @@ func TestC10(t *testing.T) {
 			}
 		}
 	}
+	// servers that use the certificate compression the hello offers (RFC 8879), with an
+	// everyday chain and with one of about 100 KB (certificate messages may be up to 256 KiB)
+	{
+		f := peer.Fix()
+		big := f.CA.Leaf(peer.LeafOpts{Kind: "ecdsa", Names: peer.DefaultNames, Ballast: 40000})
+		for _, b := range []int{30000, 20000} {
+			extra := f.CA.Leaf(peer.LeafOpts{Kind: "ecdsa", Names: []string{"extra.test"}, Ballast: b})
+			big.Certificate = append(big.Certificate, extra.Certificate[0])
+		}
+		for ti, tg := range targets {
+			if ti >= len(AllParrots)+1 && !mon.Thorough() && ti%5 != 0 {
+				continue
+			}
+			ch, err := tg.Probe("example.test")
+			if err != nil || len(ch.CertCompAlgs) == 0 {
+				continue
+			}
+			o := OfferOf(ch, targetMinVersion(tg))
+			if !o.Has(tls.VersionTLS13) || len(o.Suites13) == 0 {
+				continue
+			}
+			for _, alg := range ch.CertCompAlgs {
+				if alg < 1 || alg > 3 {
+					continue
+				}
+				for _, chainName := range []string{"everyday", "100k"} {
+					c := peer.ServerConfig()
+					if chainName == "100k" {
+						c.Certificates = []tls.Certificate{big}
+					}
+					jobs = append(jobs, job{tg, GridCase{Dim: "cert-compression", Val: fmt.Sprintf("%d/%s", alg, chainName), Server: c, Plan: compressCertPlan(alg), WantVersion: tls.VersionTLS13, WantHRR: -1}, o})
+				}
+			}
+		}
+	}
 	r.Count("planned_cases", int64(len(jobs)))
 	var mu sync.Mutex
 	refusals := map[string]int{}
@@ -101,6 +136,9 @@ func TestC10(t *testing.T) {
 			outcome = "panic"
 		case h.OK():
 			r.Count("completed", 1)
+			if j.gc.Dim == "cert-compression" {
+				r.Count("completed_with_compressed_certificate", 1)
+			}
 			if sawHRR(h.S2C) {
 				r.Count("hrr_completed", 1)
 			}
@@ -352,6 +390,7 @@ func TestC10(t *testing.T) {
 	}
 	r.Floor("completed", int64(len(jobs)*6/10))
 	r.Floor("hrr_completed", 20)
+	r.Floor("completed_with_compressed_certificate", 40)
 	r.Assume("the in-repo tls.Server (hooked where it must make a choice it would not make by itself) is the standards-compliant server; OpenSSL s_server, when an openssl binary exists, is a second, independent one (its absence is recorded, not a failure)")
 }
 
